@@ -176,6 +176,20 @@ def pick(cases, rng, n):
     fs = [feats(c) for c in cases]
     uncovered = set().union(*fs)
     chosen, idx = [], set(range(len(cases)))
+    # mandatory core: every server behaviour x every kind of destination with ACCEPTABLE arguments (in a pairwise
+    # cover a pair may be "covered" by a run that fails early for another reason and so shows nothing about it)
+    core = {}
+    for i, c in enumerate(cases):
+        if c["headersOk"]:
+            k = (c["server"], c["output"], c["existing"])
+            if k not in core or (len(c["headers"]), c["auth"] != "") < (len(cases[core[k]]["headers"]), cases[core[k]]["auth"] != ""):
+                core[k] = i
+    for k in sorted(core):
+        i = core[k]
+        chosen.append(cases[i])
+        uncovered -= fs[i]
+        idx.discard(i)
+    n = max(n, len(chosen) + 40)
     while uncovered and len(chosen) < n:
         best = max(idx, key=lambda i: len(fs[i] & uncovered))
         if not fs[best] & uncovered:
